@@ -1,5 +1,5 @@
 (* operations of the per-format layout models (NWChem electron section, ...) *)
-From BSE Require Import Model.Val Model.Basis Model.Nwchem Model.G94 Model.Turbomole Model.NwchemEcp Model.TurbomoleEcp Model.GamessUs Model.GamessUsEcp Model.Libmol Model.Dalton Model.DaltonEcp Model.Cp2k Model.Cp2kEcp Model.Genbas Model.GenbasEcp Model.Molpro Model.Demon2k Model.Demon2kEcp.
+From BSE Require Import Model.Val Model.Lut Model.Basis Model.Nwchem Model.G94 Model.Turbomole Model.NwchemEcp Model.TurbomoleEcp Model.GamessUs Model.GamessUsEcp Model.Libmol Model.Dalton Model.DaltonEcp Model.Cp2k Model.Cp2kEcp Model.Genbas Model.GenbasEcp Model.Molpro Model.Demon2k Model.Demon2kEcp Model.Molcas Model.MolcasEcp.
 Definition dec_zshells (v : val) : res (list (Z * list sshell)) :=
   do l <- as_list v;
   mapM (fun x => match x with
@@ -40,6 +40,32 @@ Definition dec_zeshells (v : val) : res (list (Z * (Z * list sshell))) :=
                  | _ => fail EDecode
                  end) l.
 Definition enc_znwels (r : list (Z * nw_el)) : val := VList (map (fun ze => VList [VInt (fst ze); enc_nw_el (snd ze)]) r).
+(* the iteration order of the Python set of cartesian letters is an input: the letters of l in the order of `order` *)
+Definition sord_of (order : list string) (l : list string) : list string :=
+  filter (fun x => existsb (String.eqb x) l) order ++ filter (fun x => negb (existsb (String.eqb x) order)) l.
+Definition dec_mels (v : val) : res (list (Z * mel)) :=
+  do l <- as_list v;
+  mapM (fun x => match x with
+                 | VList [VInt z; shs; ne; ps] =>
+                   do s <- (match shs with VNone => ok None | _ => do sl <- as_list shs; do ss <- mapM dec_shell sl; ok (Some ss) end);
+                   do e <- (match ne, ps with
+                            | VInt n, VNone => ok (Some (n, []))
+                            | VInt n, _ => do pl <- as_list ps; do pp <- mapM dec_epot pl; ok (Some (n, pp))
+                            | _, _ => ok None
+                            end);
+                   ok (z, (s, e))
+                 | _ => fail EDecode
+                 end) l.
+Definition dec_metas (v : val) : res (list (Z * (string * string))) :=
+  do l <- as_list v;
+  mapM (fun x => match x with VList [VInt z; VStr a; VStr r] => ok (z, (a, r)) | _ => fail EDecode end) l.
+Definition meta_of (ms : list (Z * (string * string))) (z : Z) : string * string :=
+  match assocZ z ms with Some p => p | None => ("", "") end.
+Definition enc_mc_eld (e : mc_eld) : val :=
+  let '(shs, ne, ps) := e in
+  VDict [("electron_shells", match shs with Some l => VList (map enc_shell l) | None => VNone end);
+         ("ecp_electrons", match ne with Some n => VInt n | None => VNone end);
+         ("ecp_potentials", match ps with Some l => VList (map enc_epot l) | None => VNone end)].
 Definition ops_formats (op : string) (args : list val) : option (res val) :=
   match op, args with
   | "nw_write_electron", [VStr harm; els] => Some (do e <- dec_zshells els; do t <- nw_write_electron harm e; ok (VStr t))
@@ -63,6 +89,12 @@ Definition ops_formats (op : string) (args : list val) : option (res val) :=
   | "mpro_read_electron", [ls] => Some (do l <- dec_strs ls; do r <- mpro_read_electron l; ok (enc_zshells r))
   | "d2k_write_all", [VBool sph; VStr name; els; ecps] => Some (do e <- dec_zeshells els; do c <- dec_zecps ecps; do t <- d2k_write_all sph name e c; ok (VStr t))
   | "d2k_read_all", [ls] => Some (do l <- dec_strs ls; do r <- d2k_read_all l; ok (enc_znwels r))
+  | "mcas_write_all", [order; els] => Some (do o <- dec_strs order; do e <- dec_mels els; do t <- mcas_write_all (sord_of o) e; ok (VStr t))
+  | "mcasl_write_all", [order; VStr name; metas; els] =>
+      Some (do o <- dec_strs order; do ms <- dec_metas metas; do e <- dec_mels els;
+            do t <- mcasl_write_all (sord_of o) name (meta_of ms) e; ok (VStr t))
+  | "mcas_read_all", [ls] => Some (do l <- dec_strs ls; do r <- mcas_read_all l;
+                                   ok (VList [VList (map (fun ze => VList [VInt (fst ze); enc_mc_eld (snd ze)]) (fst r)); VStr (snd r)]))
   | "g94_write_electron", [els] => Some (do e <- dec_zshells els; do t <- g94_write_electron e; ok (VStr t))
   | "tm_write_electron", [VStr role; VStr name; els] => Some (do e <- dec_zshells els; do t <- tm_write_electron role name e; ok (VStr t))
   | "tm_read_electron", [ls] => Some (do l <- dec_strs ls; do r <- tm_read_electron l; ok (enc_zshells r))
